@@ -4,7 +4,7 @@ CONSTANTS
  Modes = {"tag"}
  Caches = {0, 1}
  Pages = {0}
- TagDels = {0, 1}
+ TagDels = {1}
  SubjSel = {"same", "ror"}
  MaxOps = 4
  MaxConc = 2
